@@ -74,7 +74,41 @@ def digest_vcf(path):
 def gen_inproc(rng, tier):
     n = 8 if tier == "quick" else 120
     for t in range(n):
-        yield {"seed": SEEDS[t % len(SEEDS)], "inputs": rng.randrange(2**31), "burn": [rng.randint(0, 50), rng.randint(51, 500)], "no_repl": t % 2 == 0, "via": "cli" if t % 3 == 0 else "api", "flags": rng.choice([[], ["--pop_field"], ["--pop_field", "--sample_field"]]), "R": rng.randint(2, 3)}
+        # between the two seeded runs something else runs in the same process: nothing, a --region run on the same maps,
+        # a run on one chromosome only, the same command with another seed, or another seeded simphenotype call
+        yield {"seed": SEEDS[t % len(SEEDS)], "inputs": rng.randrange(2**31), "burn": [rng.randint(0, 50), rng.randint(51, 500)], "no_repl": t % 2 == 0, "via": "cli" if t % 3 == 0 else "api", "flags": rng.choice([[], ["--pop_field"], ["--pop_field", "--sample_field"]]), "R": rng.randint(2, 3), "interlude": ["region", "chrom2_only", "other_seed", "none", "region_cli", "simphenotype"][t % 6], "region": {"chr": "1", "start": rng.choice([100, 150, 300]), "end": rng.choice([350, 450, 600])}}
+
+
+def _interlude(case, d):
+    """something unrelated that runs between the two seeded runs (its own outputs are not judged here)"""
+    import haptools.sim_genotype as sg
+    from click.testing import CliRunner
+    from haptools.__main__ import main
+
+    kind = case.get("interlude", "none")
+    m, md, ref, info = str(d / "model.dat"), str(d / "maps"), str(d / "ref.vcf.gz"), str(d / "info.tab")
+    try:
+        if kind == "region":
+            reg = case["region"]
+            n, pd, bps = sg.simulate_gt(m, md, [reg["chr"]], reg, 30, SD.silent_log(), 4242)
+            bps = sg.write_breakpoints(n, pd, bps, str(d / "inter"), SD.silent_log())
+            sg.output_vcf(bps, [reg["chr"]], m, ref, info, reg, False, False, False, str(d / "inter.vcf"), SD.silent_log())
+        elif kind == "region_cli":
+            reg = case["region"]
+            CliRunner().invoke(main, ["simgenotype", "--model", m, "--mapdir", md, "--region", f"{reg['chr']}:{reg['start']}-{reg['end']}", "--ref_vcf", ref, "--sample_info", info, "--out", str(d / "inter.vcf"), "--seed", "7"], catch_exceptions=True)
+        elif kind == "chrom2_only":
+            n, pd, bps = sg.simulate_gt(m, md, ["2"], None, 30, SD.silent_log(), None)
+            sg.write_breakpoints(n, pd, bps, str(d / "inter"), SD.silent_log())
+        elif kind == "other_seed":
+            n, pd, bps = sg.simulate_gt(m, md, ["1", "2"], None, 30, SD.silent_log(), case["seed"] + 1)
+            bps = sg.write_breakpoints(n, pd, bps, str(d / "inter"), SD.silent_log())
+            sg.output_vcf(bps, ["1", "2"], m, ref, info, None, True, True, True, str(d / "inter.vcf"), SD.silent_log())
+        elif kind == "simphenotype":
+            from haptools.sim_phenotype import simulate_pt
+
+            simulate_pt(d / "gts.vcf", d / "eff.snplist", num_replications=1, heritability=0.3, seed=99, output=d / "inter.pheno", log=SD.silent_log())
+    except Exception:  # noqa: the interlude's own success is not what this section judges
+        pass
 
 
 def impl_inproc(case):
@@ -89,6 +123,8 @@ def impl_inproc(case):
     make_inputs(d, case["inputs"])
     outs = []
     for k in (0, 1):
+        if k == 1:
+            _interlude(case, d)
         np.random.random(case["burn"][k])  # arbitrary prior use of the global generator
         out = d / f"run{k}.vcf"
         if case["via"] == "cli":
@@ -120,7 +156,7 @@ def oracle_inproc(case, obs):
         return f"seeded run failed: {obs}"
     a, b = obs["runs"]
     if a["bp"] != b["bp"]:
-        return f"two simgenotype runs with seed {case['seed']} in one process wrote different breakpoint files"
+        return f"two simgenotype runs with seed {case['seed']} in one process (between them: {case.get('interlude', 'none')}) wrote different breakpoint files"
     if a["vcf"] != b["vcf"]:
         return f"two simgenotype runs with seed {case['seed']} in one process (no_replacement={case['no_repl']}, via {case['via']}) produced different genotype content"
     if not obs["pheno_identical"]:
@@ -193,8 +229,8 @@ CHECK = Check(
             setup=setup,
             teardown=teardown,
             nontrivial=lambda c, o: C.jdump(c),
-            describe=lambda c, o: [f"seed={c['seed']}", c["via"], "no_replacement" if c["no_repl"] else "replacement"],
-            rule="each seeded command twice in ONE process (seeds 0, 1, 7, 2^32-1, 12345; API entry points and the click runner; with/without --no_replacement, POP/SAMPLE flags), with different amounts of global randomness consumed before each run and whatever the first run left behind; .bp bytes, parsed VCF content and .pheno bytes must be identical; replication columns must differ",
+            describe=lambda c, o: [f"seed={c['seed']}", c["via"], "no_replacement" if c["no_repl"] else "replacement", "between-runs=" + c.get("interlude", "none")],
+            rule="each seeded command twice in ONE process (seeds 0, 1, 7, 2^32-1, 12345; API entry points and the click runner; with/without --no_replacement, POP/SAMPLE flags), with different amounts of global randomness consumed before each run, whatever the first run left behind, and between the two runs one of: nothing, a --region run on the same maps (API or CLI), a one-chromosome run, the same command with another seed and --no_replacement, another simphenotype call; .bp bytes, parsed VCF content and .pheno bytes must be identical; replication columns must differ",
         ),
         Section(
             name="fresh_processes",
